@@ -248,7 +248,7 @@ PROPERTIES = {
     },
     'C10': {
         'main_scenarios': ['records'],
-        'units': [mainloop.MainLoop, mainspec.MainWiring, io.ProgramOptionsGetters, ps.UpdateXProjection, ps.UpdateYProjection, ps.Integrate, ps.Variance, ef.WakePotential, ef.UpdateCSR, ef.ElectricFieldScale, io.HDF5FileSources, io.HDF5AppendField, io.HDF5AppendTracks, io.ReadPhaseSpace, io.MakePSFromHDF5],
+        'units': [mainloop.MainLoop, mainspec.MainWiring, io.ProgramOptionsGetters, io.ProgramOptionsSave, ps.UpdateXProjection, ps.UpdateYProjection, ps.Integrate, ps.Variance, ef.WakePotential, ef.UpdateCSR, ef.ElectricFieldScale, io.HDF5FileSources, io.HDF5AppendField, io.HDF5AppendTracks, io.ReadPhaseSpace, io.MakePSFromHDF5],
         'lemmas': [],
         'level': 'other',
         'claim': 'partial: every record of a multi-row dataset takes row b from row b of its source (dataset extents vs buffer layout; for /CSR/Spectrum proved on the row copy of append(ElectricField*)) and no append reads beyond its source buffer; at every output event and at exit the CSR, wake-potential and particle datasets receive as many records as the time axis; the time value of the final record is simulationstep/steps; the derived quantities appended are the ones '
